@@ -541,3 +541,8 @@ def replay(blob):
     res = Result()
     check_one(bytes.fromhex(blob["data"]), res, blob.get("gen", "replay"))
     return res
+
+
+# thorough tier only: the repository's own test suite, run under the invariant monitors of vlib/suite_monitors.py
+from . import _suite  # noqa: E402
+_suite.attach(globals(), "c02.", "suite.c02.decode", 500)
